@@ -80,7 +80,8 @@ Print Assumptions C06_second_commit.
 (** A Commit during which the remote failed is reported ([CCommitFault] answers with an error and
     keeps buffer and tombstones).  Whatever intermediate state the remote was left in — only some
     of the tombstones applied, or all of them and ANY subset of the buffer entries materialised
-    in any order — a later Commit without failure brings the remote to exactly the tree of an
+    in any order, possibly followed by a buffered file written with ANY other content (a stream
+    cut short) — a later Commit without failure brings the remote to exactly the tree of an
     undisturbed Commit (the view). *)
 Theorem C06_commit_fault_reported : forall c, cache_step c CCommitFault = (c, RErr).
 Proof. reflexivity. Qed.
@@ -93,6 +94,18 @@ Theorem C06_commit_converges_after_failure : forall c rp,
              forall q, lookup (cR c') q = vlookup c q.
 Proof. exact commit_converges_after_failure. Qed.
 Print Assumptions C06_commit_converges_after_failure.
+
+(** The same from the EXECUTABLE description of an intermediate remote, [partial_ok]: this is the
+    predicate the correspondence check evaluates on the remote it observes after every injected
+    failure (whole entries missing, tombstones half applied, a streamed file cut short), so the
+    hypothesis of the convergence theorem is validated against the code on every run. *)
+Theorem C06_commit_converges_from_observed : forall c rp,
+  Inv c -> partial_ok c rp = true ->
+  exists c', c_commit (mkCache (cB c) rp (cT c)) = (c', RUnit) /\
+             cB c' = cB c /\ cT c' = [] /\
+             forall q, lookup (cR c') q = vlookup c q.
+Proof. exact commit_converges_from_observed. Qed.
+Print Assumptions C06_commit_converges_from_observed.
 
 (** Copying a directory through the cache: when it reports success every node visible below the
     source is visible below the destination byte for byte (and the invariant holds, so the next
